@@ -348,16 +348,19 @@ impl<T: crate::EventSource> crate::EventSource for TransientSource<T> {
 
     fn unregister(&mut self, poll: &mut crate::Poll) -> crate::Result<()> {
         match &mut self.state {
-            TransientSourceState::Keep(source)
-            | TransientSourceState::Register(source)
-            | TransientSourceState::Disable(source) => source.unregister(poll)?,
+            TransientSourceState::Keep(source) | TransientSourceState::Disable(source) => {
+                source.unregister(poll)?
+            }
+            // A source waiting for its first registration was never registered.
+            TransientSourceState::Register(_) => (),
             TransientSourceState::Remove(source) => {
                 source.unregister(poll)?;
                 self.state.replace_state(|_| TransientSourceState::None);
             }
-            TransientSourceState::Replace { new, old } => {
+            TransientSourceState::Replace { old, .. } => {
+                // Only the old source is registered, the new one is still waiting for its
+                // first registration.
                 old.unregister(poll)?;
-                new.unregister(poll)?;
                 self.state.replace_state(TransientSourceState::Register);
             }
             TransientSourceState::None => (),
